@@ -1,4 +1,5 @@
 import Gedcom.Model.Html
+import Gedcom.Model.HtmlSinks
 import Driver.Util
 namespace Driver
 open Gedcom Gedcom.Html
@@ -103,7 +104,7 @@ partial def parseHtmlComp (toks : List String) : Option (Comp × List String) :=
 def showLexState : LState → String
   | .data => "data" | .lt => "lt" | .bang _ => "comment" | .tagName _ _ => "tag-name"
   | .inTag _ _ => "in-tag" | .attrName _ _ => "attr-name" | .afterEq _ => "after-eq"
-  | .quoted _ _ => "quoted" | .script _ => "script" | .dead => "bad-token"
+  | .quoted _ _ => "quoted" | .rawText _ _ => "raw-text" | .dead => "bad-token"
 
 /-- first token (index) at which the nesting check fails -/
 def firstNestingFailure (ts : List Tok) : String :=
@@ -159,6 +160,28 @@ def handleHtml (cmd : String) (rest : List String) : Option String :=
     | [h] =>
       match fromHex h with
       | some s => let r := skeleton s; some s!"state={showLexState r.1} tokens={r.2.length} digest={htmlHashToks r.2}"
+      | none => some "bad-op"
+    | _ => some "bad-op"
+  | "sinkcheck" =>
+    -- ids of the regenerated sink calls that the model does not accept, and the raw core parameters
+    let bad := (Generated.sinkCalls.filter (fun c => !sinkCallOk c)).map (fun c => toString c.1)
+    let rawOk := rawCoreParams == expectedRawCoreParams
+    some s!"raw-params={b2s rawOk} offending={",".intercalate bad}"
+  | "structure" =>
+    -- digest of the token stream and the distinct element.attribute pairs of the page
+    match rest with
+    | [h] =>
+      match fromHex h with
+      | some s =>
+        let r := skeleton s
+        let pairs := r.2.foldl (fun acc t =>
+          match t with
+          | .open n a | .selfClose n a =>
+            a.foldl (fun acc k =>
+              let p := String.fromUTF8! (ByteArray.mk (n ++ [46] ++ k).toArray)
+              if acc.contains p then acc else p :: acc) acc
+          | _ => acc) ([] : List String)
+        some s!"state={showLexState r.1} tokens={r.2.length} digest={htmlHashToks r.2} attrs={",".intercalate pairs.reverse}"
       | none => some "bad-op"
     | _ => some "bad-op"
   | "wellnested" =>
